@@ -436,7 +436,17 @@ func (c13) Run(c *Case, st *Stats) []Violation {
 				runErr = bt.Run()
 				st.Probes["second-run-on-the-same-backtest-and-report"]++
 			}
-			names = bt.Names
+			// the assets the run is about: the explicit list, or - for an empty list - every asset of
+			// the repository (decided here, not read back from the Backtest value)
+			if c.Mode == "explicit" {
+				names = append([]string{}, c.Names...)
+			} else {
+				for _, a := range c.Assets {
+					if !a.SrcAbsent {
+						names = append(names, a.Name)
+					}
+				}
+			}
 		})
 	})
 	defer func() {
